@@ -1360,7 +1360,7 @@ unsafe fn copy_guarded(
 // cause test_non_atomic_access to fail.
 fn alignment(addr: usize) -> usize {
     // Rust is silly and does not let me write addr & -addr.
-    addr & (!addr + 1)
+    addr & (!addr).wrapping_add(1)
 }
 
 pub(crate) mod copy_slice_impl {
